@@ -125,12 +125,73 @@ class ActionModel:
                 return Val("new", node.func.id, [self._eval(a, env, p) for a in node.args])
         return Val("unknown")
 
-    def _effects_of_stmt(self, n: N, env: dict, pe: PathEffects, p: str):
+    def _helper_alternatives(self, call: ast.Call, env: dict, p: str, depth: int):
+        """a call to another module-level function of fsm.py that is handed the provider (an action calling
+        an action, a shared helper): -> [(effects, return value)] of the callee's non-raising paths with its
+        parameters bound to the abstract arguments, or None when the call is not such a call"""
+        f = call.func
+        if not isinstance(f, ast.Name) or f.id not in self.mod.funcs or f.id in PDU_CLASSES or f.id in PRIMITIVES:
+            return None
+        callee = self.mod.funcs[f.id]
+        params = [a.arg for a in callee.args.args]
+        vals = [self._eval(a, env, p) for a in call.args]
+        if not params or not vals or vals[0].kind != "dul" or call.keywords or len(vals) > len(params):
+            return None
+        if depth >= 3:
+            raise AnalysisError(f"fsm.{callee.name}: helper calls nested deeper than 3")
+        bind = dict(zip(params[1:], vals[1:]))
+        alts = []
+        for cp in self.paths(callee, bind=bind, depth=depth + 1):
+            if not cp.raised:
+                alts.append((list(cp.effects), cp.ret))
+        return alts or None
+
+    def _effects_of_stmt(self, n: N, env: dict, pe: PathEffects, p: str, depth: int = 0):
+        """appends the statement's effects to `pe`; returns further PathEffects when a helper call in the
+        statement has more than one path (the caller's path forks there)"""
         st = n.ast
         sc = scope(n)
+        forks: list[PathEffects] = []
+        targets = [pe]
         for call in ordered_calls(sc):
             d = dotted(call.func) or ""
             f = call.func
+            alts = self._helper_alternatives(call, env, p, depth)
+            if alts is not None:
+                new_targets = []
+                for t in targets:
+                    base_eff = list(t.effects)
+                    for k, (eff, ret) in enumerate(alts):
+                        tt = t if k == 0 else copy_path(t, base_eff)
+                        tt.effects.extend(eff)
+                        if isinstance(st, ast.Return) and st.value is call:
+                            tt._helper_ret = ret
+                        if k:
+                            forks.append(tt)
+                        new_targets.append(tt)
+                targets = new_targets
+                continue
+            self._one_call(call, d, f, env, p, targets)
+        self._bindings(n, st, env, p, targets)
+        return forks
+
+    def _one_call(self, call, d, f, env, p, targets):
+        class _Multi:
+            """append to every alternative at once"""
+
+            def __init__(self, ts):
+                self.ts = ts
+
+            def append(self, e):
+                for t in self.ts:
+                    t.effects.append(e)
+
+        class _PE:
+            pass
+
+        pe = _PE()
+        pe.effects = _Multi(targets)
+        if True:
             if d == f"{p}._send" and call.args:
                 v = self._eval(call.args[0], env, p)
                 pe.effects.append(("send", v, call))
@@ -176,6 +237,8 @@ class ActionModel:
                 pe.effects.append(("other", d, call))
             else:
                 pe.effects.append(("other", d or norm(call), call))
+
+    def _bindings(self, n, st, env, p, targets):
         # bindings and constant attribute writes
         if isinstance(st, ast.Assign) and n.kind == "stmt" and len(st.targets) == 1:
             t = st.targets[0]
@@ -189,10 +252,13 @@ class ActionModel:
                     else:
                         obj.consts[t.attr] = ("expr", norm(st.value))
         if isinstance(st, ast.Return) and n.kind == "stmt":
-            if isinstance(st.value, ast.Constant) and isinstance(st.value.value, str):
-                pe.ret = st.value.value
-            else:
-                pe.ret = "?" + norm(st.value) if st.value else "?None"
+            for pe in targets:
+                if isinstance(st.value, ast.Constant) and isinstance(st.value.value, str):
+                    pe.ret = st.value.value
+                elif getattr(pe, "_helper_ret", None) is not None:
+                    pe.ret = pe._helper_ret
+                else:
+                    pe.ret = "?" + norm(st.value) if st.value else "?None"
 
     @staticmethod
     def _feasible(test: ast.AST, taken: bool, env: dict) -> bool:
@@ -216,7 +282,7 @@ class ActionModel:
                 return not is_none_holds
         return True
 
-    def paths(self, fn: ast.FunctionDef) -> list[PathEffects]:
+    def paths(self, fn: ast.FunctionDef, bind: dict | None = None, depth: int = 0) -> list[PathEffects]:
         if not fn.args.args:
             raise AnalysisError(f"action {fn.name} has no provider parameter")
         p = fn.args.args[0].arg
@@ -224,7 +290,8 @@ class ActionModel:
         out = []
         for path in cfg.paths(max_paths=400):
             pe = PathEffects()
-            env: dict[str, Val] = {}
+            env: dict[str, Val] = dict(bind or {})
+            extra: list[PathEffects] = []
             if path[-1] is cfg.raise_exit:
                 pe.raised = True
             for i, n in enumerate(path):
@@ -244,14 +311,34 @@ class ActionModel:
                 if nxt_label == "exc":
                     pe.lines.append(n.line)
                     continue
-                self._effects_of_stmt(n, env, pe, p)
-                pe.lines.append(n.line)
+                live = [pe] + extra
+                for q in live:
+                    if q is pe:
+                        extra.extend(self._effects_of_stmt(n, env, q, p, depth))
+                    else:
+                        # an alternative forked earlier on this path: same statement, its own effect list
+                        extra.extend(self._effects_of_stmt(n, dict(env), q, p, depth))
+                for q in [pe] + extra:
+                    q.lines.append(n.line) if (not q.lines or q.lines[-1] != n.line) else None
                 if n.kind == "test" and nxt_label in ("true", "false"):
-                    pe.conds.append((norm(n.ast.test), nxt_label == "true"))
-                    pe.cond_nodes.append((n.ast.test, nxt_label == "true"))
+                    for q in [pe] + extra:
+                        q.conds.append((norm(n.ast.test), nxt_label == "true"))
+                        q.cond_nodes.append((n.ast.test, nxt_label == "true"))
                     if not self._feasible(n.ast.test, nxt_label == "true", env):
                         pe = None
                         break
             if pe is not None:
                 out.append(pe)
+                out.extend(extra)
         return out
+
+
+def copy_path(t: PathEffects, effects: list) -> PathEffects:
+    c = PathEffects()
+    c.effects = list(effects)
+    c.ret = t.ret
+    c.conds = list(t.conds)
+    c.cond_nodes = list(t.cond_nodes)
+    c.lines = list(t.lines)
+    c.raised = t.raised
+    return c
